@@ -34,7 +34,9 @@ T3 == {Ptr(Ptr(Prim("int8"))), Slice(Ptr(Prim("uint8"))), Slice(Slice(Prim("stri
 FT == {Prim("int8"), Prim("uint64"), Prim("string"), Prim("bool"), Prim("float32"), Ptr(Prim("int16")), Slice(Prim("string")),
        MapOf(Prim("int")), Iface, Inner, Ptr(Inner), Array(Prim("uint8"), 2), Std("time"), Ptr(Std("bigint")), Ptr(Prim("string")),
        Ptr(Slice(Prim("string"))), Ptr(Ptr(Prim("int8"))), Ptr(MapOf(Prim("bool"))), Ptr(Iface),
-       Struct("Empty", <<>>), MapOf(Struct("Empty", <<>>)), Slice(Struct("Empty", <<>>)), Array(Prim("uint8"), 2), Slice(Array(Prim("uint8"), 2))}
+       Struct("Empty", <<>>), MapOf(Struct("Empty", <<>>)), Slice(Struct("Empty", <<>>)), Slice(Array(Prim("uint8"), 2)),
+       \* zero-length arrays: always "empty" for omitempty (encoding/json tests Len() = 0), never "zero"-skipped otherwise
+       Array(Prim("string"), 0), Array(Inner, 0)}
 TagForms == {<<"", {}>>, <<"n", {}>>, <<"", {"omitempty"}>>, <<"", {"omitzero"}>>, <<"n", {"omitempty", "omitzero"}>>}
 \* one-field structs: every field type x every tag form, plus "-", "-," and unexported
 S1 == {Struct("S", <<Field("F", tf[1], tf[2], t)>>) : t \in FT, tf \in TagForms}
